@@ -137,13 +137,13 @@ claim("C12",
       "Not decided: numeric time/allocation bounds, miekg's own parsing, unrecoverable runtime errors. miekg's one-question rule and lack of recover are trusted facts.")
 
 claim("C08",
-      "constant-table rules over the typed AST (alphabets, registry, codes), sibling agreement of Encode/Decode objects, substitution-map extraction on SSA, result-use rule",
+      "constant-table rules over the typed AST (alphabets, registry, codes), sibling agreement of Encode/Decode objects, substitution-map extraction on SSA, result-use rule, length abstraction (abstract interpretation of the packers over known lengths/counters, contents unknown)",
       "Decides the table-level facts of the selectable codecs: every alphabet constant given to a NewEncoding constructor and every data-indexed constant "
       "table has radix-many pairwise distinct symbols, none a dot, backslash, space or control character; FromCode's registry lists every codec, codes are "
       "distinct upper-case constants; table-driven codecs encode and decode with the same encoding object; Base85's substitutions cover the forbidden bytes "
       "ascii85 can emit, land outside ascii85's alphabet and are inverted by Decode; the byte counts returned by ascii85.Encode/Decode cut the buffer. "
-      "ascii85.Decode is given 4*len+4 bytes of room or its consumed count is inspected; every declared codec ratio is >= the radix-derived lower bound. substitution tables given as strings.NewReplacer pairs are read too and must be byte-for-byte; Encode/Decode results are memory of their own (no pool/global/field); This is the structural minority of the property.",
-      "Not decided (most of the property): round-trip equality and expansion bounds of the arithmetic/bit-packing codecs (Base128, Base192), library codecs' behaviour.")
+      "ascii85.Decode is given 4*len+4 bytes of room or its consumed count is inspected; every declared codec ratio is >= the radix-derived lower bound. substitution tables given as strings.NewReplacer pairs are read too and must be byte-for-byte; Encode/Decode results are memory of their own (no pool/global/field); for every selectable codec whose output length is a function of the input length under the length abstraction (Base128, Raw), Decode accepts exactly the lengths Encode produces and returns the input length, for input lengths 0..64 and by the period of the abstract loop state beyond. This is the structural minority of the property.",
+      "Not decided (most of the property): equality of the decoded contents and expansion bounds of the arithmetic/bit-packing codecs, library codecs' behaviour; Base192 (registered, never selected by this module, its own test disabled) is outside the claim.")
 
 claim("C11",
       "dominance and path-fact rules on Handshake, candidate/registry table comparison, byte-recurrence constant extraction, loop-progress analysis with linear-offset folding, alphabet case-fold injectivity",
